@@ -8,8 +8,16 @@
     (blocks[i], round_keys[i]).
  K  key-lane agreement for every backend (incl. the bitsliced software one): the term of output lane i mentions the
     round key of lane i and of no other lane.
-Not decided: that AESENC / AESE+AESMC / the bitsliced round *are* the FIPS-197 round transformations, and that
-mix_columns / inv_mix_columns are mutual inverses.
+ For the *software* implementation (bitsliced, engine L3b -- see bitform.py; S-box pair proved inverse by truth tables first):
+ M  inv_mix_columns(mix_columns(b)) = b and mix_columns(inv_mix_columns(b)) = b for a symbolic block.
+ I  round consistency: with the FIPS definitions  cipher_round(b, k) = MC(SR(SB(b))) ^ k  and
+    equiv_inv_cipher_round(c, k') = IMC(ISR(ISB(c))) ^ k'  (SB / SR commute),
+        mix_columns( equiv_inv_cipher_round( inv_mix_columns( cipher_round(b, k) ^ k ), k' ) ^ k' )  =  b
+    for symbolic b, k, k' -- a necessary condition that ties the four functions together (any one of them deviating from
+    its definition, e.g. S-box NOTs folded into the wrong place, breaks it).
+ Ps parallel = eight singles for the software implementation too, compared in bit-level canonical form.
+Not decided: that AESENC / AESE+AESMC / the bitsliced round *are* the FIPS-197 round transformations (conformance), and
+M / I for the intrinsic implementations (AESIMC etc. are opaque).
 """
 from facts import *
 import equiv, engine
@@ -43,10 +51,137 @@ def sym_names(t, out, seen=None):
                 sym_names(a, out, seen)
 
 
+def soft_rules(chk, cfgname, m, mod):
+    """rules M, I, Ps for the software hazmat module `mod` (bit-level engine)"""
+    import c01, bitform
+    from ops import unflatten
+    n = 0
+    base = '%s|%s' % (cfgname, mod)
+    fns = {}
+    for f in m.fns:
+        if f['path'].rsplit('::', 1)[0] == mod and f['path'].rsplit('::', 1)[1] in NAMES:
+            fns[f['path'].rsplit('::', 1)[1]] = f
+    if set(fns) != set(NAMES):
+        chk.fail_closed('M-mix-inverse', base, 'software hazmat functions missing: %s' % sorted(set(NAMES) - set(fns)))
+        return 0
+    summ, inv, lem, verdict = c01.bitlevel_setup(m, c01.bitlevel_spec('aes::soft'))
+    if summ is None:
+        if verdict is False:
+            chk.violation('I-round-consistency', base + '|lemma', 'aes software S-box pair: %s' % lem)
+        else:
+            chk.undecided.append('software hazmat rules M / I / Ps in %s: bit-level mode not applicable (%s)' % (cfgname, lem))
+        return 0
+    try:
+        equiv.fresh_terms()
+        I = engine.mk_interp(m, 30_000_000)
+        I.bitcanon = True
+        T.BITCANON = True
+        I.summaries = dict(summ)
+        bitform.PW_INVERSES.update(inv)
+        bty = m.ty(fns['mix_columns']['mir']['locals'][1])['t']
+
+        def fresh_block(st, f, idx, name):
+            a = engine.default_args(I, st, f)
+            return a[idx]
+
+        def bytes_of(st, p):
+            return flatten(I, st.mem[p.obj], bty)
+
+        def xor_into(st, p, q):
+            a, b = bytes_of(st, p), bytes_of(st, q)
+            st.mem[p.obj] = unflatten(I, [topint(8, False, T.op('BitXor', 8, x.term, y.term)) for x, y in zip(a, b)], bty)
+
+        def same(st, p, want):
+            got = bytes_of(st, p)
+            return [i for i, (g, w) in enumerate(zip(got, want)) if g.term is None or bitform.recanon(g.term) is not w]
+
+        # ---- M
+        for (f1, f2) in (('mix_columns', 'inv_mix_columns'), ('inv_mix_columns', 'mix_columns')):
+            n += 1
+            key = base + '|M|%s-first' % f1
+            st = State()
+            b = fresh_block(st, fns[f1], 0, 'b')
+            want = [x.term for x in bytes_of(st, b)]
+            ok = True
+            for fn in (f1, f2):
+                status, r = engine.run(I, fns[fn]['id'], [b], st)
+                if status != 'ok':
+                    chk.fail_closed('M-mix-inverse', key + '|' + status, '%s: %s' % (fn, str(r)[:200]))
+                    ok = False
+                    break
+            if not ok:
+                continue
+            bad = same(st, b, want)
+            if bad:
+                chk.violation('M-mix-inverse', key, '%s::%s(%s(b)) is not b (byte %d; bit-level canonical forms differ)' % (mod, f2, f1, bad[0]))
+            else:
+                chk.ok('M-mix-inverse', key, dict(module=mod, identity='%s(%s(b)) = b' % (f2, f1)))
+        # ---- I
+        n += 1
+        key = base + '|I'
+        st = State()
+        a = engine.default_args(I, st, fns['cipher_round'])
+        b, k = a[0], a[1]
+        k2 = engine.default_args(I, st, fns['equiv_inv_cipher_round'])[1]
+        want = [x.term for x in bytes_of(st, b)]
+        steps = [('cipher_round', [b, k]), ('xor', k), ('inv_mix_columns', [b]), ('equiv_inv_cipher_round', [b, k2]), ('xor', k2), ('mix_columns', [b])]
+        ok = True
+        for (fn, args) in steps:
+            if fn == 'xor':
+                xor_into(st, b, args)
+                continue
+            status, r = engine.run(I, fns[fn]['id'], args, st)
+            if status != 'ok':
+                chk.fail_closed('I-round-consistency', key + '|' + status, '%s: %s' % (fn, str(r)[:200]))
+                ok = False
+                break
+        if ok:
+            bad = same(st, b, want)
+            if bad:
+                chk.violation('I-round-consistency', key,
+                              '%s: mix_columns(equiv_inv_cipher_round(inv_mix_columns(cipher_round(b, k) ^ k), k2) ^ k2) is not b (byte %d): the '
+                              'four software round functions are not the FIPS-197 transformations of one another' % (mod, bad[0]))
+            else:
+                chk.ok('I-round-consistency', key, dict(module=mod, identity='MC(EIC(IMC(CR(b,k)^k),k2)^k2) = b'))
+        # ---- Ps
+        for single_n, par_n in (('cipher_round', 'cipher_round_par'), ('equiv_inv_cipher_round', 'equiv_inv_cipher_round_par')):
+            st = State()
+            a = engine.default_args(I, st, fns[par_n])
+            lin, lk = lanes_of(st.mem[a[0].obj]), lanes_of(st.mem[a[1].obj])
+            status, r = engine.run(I, fns[par_n]['id'], a, st)
+            if status != 'ok':
+                chk.fail_closed('P-par-equals-singles', '%s|%s|%s' % (base, par_n, status), str(r)[:200])
+                continue
+            lout = lanes_of(st.mem[a[0].obj])
+            for i in range(len(lin)):
+                n += 1
+                keyP = '%s::%s|%s|P|lane%d' % (base, par_n, 'soft', i)
+                st2 = State()
+                a2 = engine.default_args(I, st2, fns[single_n])
+                st2.mem[a2[0].obj] = lin[i]
+                st2.mem[a2[1].obj] = lk[i]
+                status, r = engine.run(I, fns[single_n]['id'], a2, st2)
+                if status != 'ok':
+                    chk.fail_closed('P-par-equals-singles', keyP, str(r)[:200])
+                    continue
+                sb = flatten(I, st2.mem[a2[0].obj], bty)
+                ob = flatten(I, lout[i], bty)
+                diff = [j for j, (x, y) in enumerate(zip(sb, ob)) if x.term is None or y.term is None or bitform.recanon(x.term) is not bitform.recanon(y.term)]
+                if diff:
+                    chk.violation('P-par-equals-singles', keyP, '%s::%s: lane %d byte %d differs from %s(blocks[%d], round_keys[%d]) (bit-level canonical forms)' % (
+                        mod, par_n, i, diff[0], single_n, i, i))
+                else:
+                    chk.ok('P-par-equals-singles', keyP, dict(fn='%s::%s' % (mod, par_n), lane=i, engine='bit-level') if i == 0 else None)
+    finally:
+        T.BITCANON = False
+        engine._INTERPS.clear()
+    return n
+
+
 def run(chk, facts_by_config):
     chk.trusted += ['the rewrite rules of analysis/terms.py', 'purity of the AES CPU intrinsics']
     chk.undecided += ['AESENC / AESE+AESMC / the bitsliced round are the FIPS-197 round transformations',
-                      'mix_columns / inv_mix_columns are mutual inverses', 'software parallel form equals eight single calls (bitsliced lanes)']
+                      'mix_columns / inv_mix_columns mutual inverses and round consistency for the intrinsic implementations']
     for cfgname, F in facts_by_config.items():
         if 'hazmat' not in F.meta['cfg']['features']:
             continue
@@ -164,5 +299,9 @@ def run(chk, facts_by_config):
                                 mod, par_n, i, diff[0][0], single_n, i, i, T.first_diff(diff[0][2], diff[0][1])))
                         else:
                             chk.ok('P-par-equals-singles', keyP, dict(fn='%s::%s' % (mod, par_n), lane=i) if i == 0 else None)
+            for mod in sorted(set(f['path'].rsplit('::', 1)[0] for f in m.fns if f['path'].endswith('::hazmat::cipher_round_par')
+                                  and 'soft' in f['path'])):
+                nS = soft_rules(chk, cfgname, m, mod)
+                chk.floor('soft-rules', nS, 'Soft.' + cfgname)
         chk.floor('H-dispatch', nH, 'H.' + cfgname)
         chk.floor('P', nP, 'P.' + cfgname)
